@@ -178,6 +178,119 @@ def _mentions_bitvectors(assertions: List[Any]) -> bool:
     return False
 
 
+def _index_terms(assertions: List[Any], limit: int = 60) -> Dict[Any, List[Any]]:
+    """ground terms worth instantiating quantifiers with: indices of selects/stores and constants, by sort"""
+    out: Dict[Any, List[Any]] = {}
+    seen = set()
+    stack = list(assertions)
+    bound_depth = 0
+    while stack:
+        x = stack.pop()
+        if x.get_id() in seen:
+            continue
+        seen.add(x.get_id())
+        if z3.is_quantifier(x):
+            continue  # terms under binders mention bound variables
+        if z3.is_app(x):
+            k = x.decl().kind()
+            if k in (z3.Z3_OP_SELECT, z3.Z3_OP_STORE):
+                for idx in x.children()[1 : (2 if k == z3.Z3_OP_SELECT else 2)]:
+                    if not _has_var(idx):
+                        out.setdefault(idx.sort().sexpr(), [])
+                        if all(not idx.eq(t) for t in out[idx.sort().sexpr()]) and len(out[idx.sort().sexpr()]) < limit:
+                            out[idx.sort().sexpr()].append(idx)
+            elif x.num_args() == 0 and k == z3.Z3_OP_UNINTERPRETED and (z3.is_bv(x) or z3.is_int(x)):
+                out.setdefault(x.sort().sexpr(), [])
+                if all(not x.eq(t) for t in out[x.sort().sexpr()]) and len(out[x.sort().sexpr()]) < limit:
+                    out[x.sort().sexpr()].append(x)
+            stack.extend(x.children())
+    return out
+
+
+def _has_var(e: Any) -> bool:
+    stack = [e]
+    seen = set()
+    while stack:
+        x = stack.pop()
+        if x.get_id() in seen:
+            continue
+        seen.add(x.get_id())
+        if z3.is_var(x):
+            return True
+        if z3.is_quantifier(x):
+            continue
+        stack.extend(x.children())
+    return False
+
+
+_SK = [0]
+
+
+def _skolemize_negated_universals(a: Any) -> Any:
+    """not(forall xs. body) -> not(body[sk]);  not(and(..)) -> or(not ..) recursively.  Equisatisfiable."""
+    if z3.is_not(a):
+        b = a.arg(0)
+        if z3.is_quantifier(b) and b.is_forall():
+            cs = []
+            for i in range(b.num_vars()):
+                _SK[0] += 1
+                cs.append(z3.Const(f'sk!{_SK[0]}_{b.var_name(i)}', b.var_sort(i)))
+            return _skolemize_negated_universals(z3.Not(z3.substitute_vars(b.body(), *reversed(cs))))
+        if z3.is_and(b):
+            return z3.Or(*[_skolemize_negated_universals(z3.Not(c)) for c in b.children()])
+        if z3.is_implies(b):
+            return z3.And(b.arg(0), _skolemize_negated_universals(z3.Not(b.arg(1))))
+    return a
+
+
+def _instantiate_once(assertions: List[Any], max_instances: int = 400) -> Optional[List[Any]]:
+    """replace every top-level universally quantified assertion by its instances at the index terms of the
+    query (one round).  The result is IMPLIED by the original assertions, so `unsat` carries over; `sat`
+    only yields a candidate counter-model."""
+    import itertools
+
+    # inline the named conjuncts of a structured goal (goalpart!i == X_i, not(and(goalpart!..)))
+    defs = {a.arg(0).decl().name(): a.arg(1) for a in assertions if z3.is_eq(a) and z3.is_const(a.arg(0)) and a.arg(0).decl().name().startswith('goalpart!')}
+    if defs:
+        rest = [a for a in assertions if not (z3.is_eq(a) and z3.is_const(a.arg(0)) and a.arg(0).decl().name().startswith('goalpart!'))]
+        out_a = []
+        for a in rest:
+            if z3.is_not(a) and (z3.is_and(a.arg(0)) or z3.is_const(a.arg(0))) and all(z3.is_const(c) and c.decl().name() in defs for c in (a.arg(0).children() if z3.is_and(a.arg(0)) else [a.arg(0)])):
+                cs = a.arg(0).children() if z3.is_and(a.arg(0)) else [a.arg(0)]
+                out_a.append(z3.Not(z3.And(*[defs[c.decl().name()] for c in cs])))
+            else:
+                out_a.append(a)
+        assertions = out_a
+    assertions = [_skolemize_negated_universals(a) for a in assertions]
+    terms = _index_terms(assertions)
+    out: List[Any] = []
+    for a in assertions:
+        conj = [a]
+        if z3.is_and(a):
+            conj = list(a.children())
+        for c in conj:
+            if not _has_quantifier(c):
+                out.append(c)
+                continue
+            if not (z3.is_quantifier(c) and c.is_forall()):
+                continue  # nested / existential: dropped (weakening)
+            sorts = [c.var_sort(i).sexpr() for i in range(c.num_vars())]
+            pools = [terms.get(so, []) for so in sorts]
+            if any(not pl for pl in pools):
+                continue
+            n = 1
+            for pl in pools:
+                n *= len(pl)
+            if n > max_instances:
+                pools = [pl[: max(1, int(max_instances ** (1.0 / len(pools))))] for pl in pools]
+            body = c.body()
+            for combo in itertools.product(*pools):
+                inst = z3.substitute_vars(body, *reversed(combo))
+                if not _has_quantifier(inst):
+                    out.append(inst)
+    return out
+
+
 def _solve_portfolio(assertions: List[Any], timeout_ms: int):
     """Solver verdicts on quantified VCs are unstable (the same query flips between 0.3 s and a
     timeout depending on the solver's internal state), so a query is tried in fresh contexts under a
@@ -237,11 +350,37 @@ def _solve_portfolio(assertions: List[Any], timeout_ms: int):
     return (z3.unknown, 'z3+cvc5', None, reason)
 
 
+CANDIDATE = 'instantiated(quantified hypotheses relaxed: candidate counter-model)'
+
+
+def _solve_with_instantiation(assertions: List[Any], timeout_ms: int):
+    """quantified queries: first one round of instantiation at the query's own index terms (ground, fast):
+    unsat there is a proof.  Otherwise the full portfolio decides; if that stays unknown while the
+    instantiated query was sat, the answer is sat with backend CANDIDATE (a candidate counter-model)."""
+    if not any(_has_quantifier(a) for a in assertions):
+        return _solve_portfolio(assertions, timeout_ms)
+    cand = None
+    try:
+        inst = _instantiate_once(assertions)
+        if inst is not None:
+            r0, b0, s0, _ = _solve_portfolio(inst, min(timeout_ms, 15000))
+            if r0 == z3.unsat:
+                return (z3.unsat, b0 + '+instantiation', None, '')
+            if r0 == z3.sat:
+                cand = s0
+    except z3.Z3Exception:
+        pass
+    r, backend, s, reason = _solve_portfolio(assertions, timeout_ms)
+    if r == z3.unknown and cand is not None:
+        return (z3.sat, CANDIDATE, cand, reason)
+    return (r, backend, s, reason)
+
+
 def discharge(obl: Obl, timeout_ms: Optional[int] = None) -> OblResult:
     if obl.kind in ('cover', 'canary'):
         return _discharge_cover(obl)
     t0 = time.time()
-    r, backend, s, reason = _solve_portfolio(list(obl.hyps) + [z3.Not(obl.goal)], timeout_ms or Z3_TIMEOUT_MS)
+    r, backend, s, reason = _solve_with_instantiation(list(obl.hyps) + [z3.Not(obl.goal)], timeout_ms or Z3_TIMEOUT_MS)
     dt = time.time() - t0
     if obl.kind == 'vc':
         if r == z3.unsat:
@@ -285,7 +424,16 @@ def serialize(obl: Obl) -> Dict[str, Any]:
     s.add(*obl.hyps)
     ground = None
     if obl.kind == 'vc':
-        s.add(z3.Not(obl.goal))
+        parts = list(obl.goal.children()) if z3.is_and(obl.goal) and obl.goal.num_args() > 1 else None
+        if parts:
+            # conjunctive goals keep their structure (named parts) so that a worker can refute ONE conjunct
+            # when the whole conjunction times out
+            gs = [z3.Bool(f'goalpart!{i}') for i in range(len(parts))]
+            for g, p_ in zip(gs, parts):
+                s.add(g == p_)
+            s.add(z3.Not(z3.And(*gs)))
+        else:
+            s.add(z3.Not(obl.goal))
     else:
         g = z3.Solver()
         g.add(*[h for h in obl.hyps if not _has_quantifier(h)])
@@ -322,8 +470,25 @@ def solve_serialized(d: Dict[str, Any]) -> OblResult:
             backend = 'z3-ground(quantified hyps not refuted)'
         st = 'covered' if r == z3.sat else ('uncovered' if r == z3.unsat else 'unknown')
         return OblResult(d['name'], d['kind'], st, backend, time.time() - t0, detail='' if st != 'unknown' else 'cover undecided', meta=d['meta'])
-    r, backend, s, reason = _solve_portfolio(asr, Z3_TIMEOUT_MS)
+    r, backend, s, reason = _solve_with_instantiation(asr, Z3_TIMEOUT_MS)
+    failed_part = None
+    if r == z3.unknown:
+        # split a conjunctive goal: hyps /\ defs /\ not(part_i), one conjunct at a time
+        defs = [a for a in asr if z3.is_eq(a) and z3.is_const(a.arg(0)) and a.arg(0).decl().name().startswith('goalpart!')]
+        if defs:
+            base = [a for a in asr[:-1]]
+            verdicts = []
+            for dfn in defs:
+                ri, bi, si, _ = _solve_with_instantiation(base + [z3.Not(dfn.arg(0))], Z3_TIMEOUT_MS // 2)
+                verdicts.append(ri)
+                if ri == z3.sat:
+                    r, backend, s, failed_part = ri, bi, si, dfn.arg(0).decl().name()
+                    break
+            if failed_part is None and all(v == z3.unsat for v in verdicts):
+                r, backend = z3.unsat, 'z3(conjunct-wise)'
     dt = time.time() - t0
+    if failed_part is not None:
+        d = dict(d, meta=dict(d['meta'], failed_conjunct=failed_part))
     if r == z3.unsat:
         return OblResult(d['name'], 'vc', 'proved', backend, dt, meta=d['meta'])
     if r == z3.sat:
@@ -469,7 +634,10 @@ class Report:
         # failed VCs without an explicit Violation record -> generic violation (no input found)
         explicit = {v.obligation for v in self.violations}
         for r in self.results:
-            if r.kind == 'vc' and r.status == 'failed' and r.name not in explicit:
+            if r.kind == 'vc' and r.status == 'failed' and r.name not in explicit and r.backend == CANDIDATE and (lock is None or stable_name(r.name) not in lock) and match_known(known, Violation(r.name, '', {}, False, key=r.name)) is None:
+                # refuted only modulo relaxed quantified hypotheses, and never proved on the unchanged tree
+                self.undecided.append(f'obligation={r.name} reason=candidate-counter-model-only (not a locked obligation)')
+            elif r.kind == 'vc' and r.status == 'failed' and r.name not in explicit:
                 self.violations.append(
                     Violation(r.name, f'obligation {r.name} is refuted by {r.backend}', dict(model=r.model or {}, meta=r.meta), False, key=r.name)
                 )
@@ -610,9 +778,11 @@ def load_known_findings() -> Dict[str, List[Dict[str, Any]]]:
 
 
 def match_known(known: List[Dict[str, Any]], v: Violation) -> Optional[Dict[str, Any]]:
-    """A known finding matches on the obligation name AND the witness key (both exact)."""
+    """A known finding matches on the obligation name AND the witness key (shell-style patterns, so one finding can name its obligation in every instantiation; both must match)."""
+    import fnmatch
+
     for k in known:
-        if k['obligation'] == v.obligation and k.get('key', v.key) == v.key:
+        if fnmatch.fnmatchcase(v.obligation, k['obligation']) and fnmatch.fnmatchcase(v.key, k.get('key', v.key)):
             return k
     return None
 
